@@ -979,34 +979,39 @@ func runC13(c *Ctx) {
 	// Set only loops over Transition(Get(), val)
 	set := chordFn(c, "nodeState", "Set")
 	trCalls := set.CallsTo(false, "chord.nodeState.Transition")
-	okSet := len(trCalls) == 1 && set.Prov(trCalls[0].Args[0]) == "recv.Get()" && set.Prov(trCalls[0].Args[1]) == "param#0"
+	// every attempt is Transition(Get(), val) (one call in a loop, or a first attempt followed
+	// by the same call in a retry loop), and the function returns only after an attempt won
+	okSet := len(trCalls) >= 1
+	for _, tc := range trCalls {
+		if set.Prov(tc.Args[0]) != "recv.Get()" || set.Prov(tc.Args[1]) != "param#0" {
+			okSet = false
+		}
+	}
+	if okSet {
+		// no exit is reachable without passing the success edge of an attempt
+		_, exits := set.Reach(nil, nil, func(b *cfgBlock, si int) bool {
+			for _, at := range set.edgeAtoms(b, si) {
+				if at.tag != nil {
+					continue
+				}
+				// ok true / !ok false, where ok is bound to an attempt
+				e := ast.Unparen(at.e)
+				truth := at.truth
+				if u, isNot := e.(*ast.UnaryExpr); isNot && u.Op == token.NOT {
+					e, truth = ast.Unparen(u.X), !truth
+				}
+				if truth && strings.Contains(set.Prov(e), ".Transition()#1") {
+					return true
+				}
+			}
+			return false
+		})
+		okSet = len(exits) == 0
+	}
 	c.Ob("state-writers", "nodeState.Set#via-Transition", set.Decl.Pos(), okSet, "Set retries Transition(Get(), val) until it wins; it never stores directly")
 	if okSet {
-		// the loop exits only on the ok edge
-		var loop *ast.ForStmt
-		ast.Inspect(set.Body, func(n ast.Node) bool {
-			if f, ok := n.(*ast.ForStmt); ok {
-				loop = f
-			}
-			return true
-		})
-		okExit := false
-		if loop != nil && loop.Cond == nil {
-			okExit = true
-			ast.Inspect(loop.Body, func(n ast.Node) bool {
-				switch x := n.(type) {
-				case *ast.BranchStmt:
-					if x.Tok == token.BREAK && !set.FactsAt(x).Has(func(fa *Fact) bool { return fa.Kind == FTrue && fa.Call == trCalls[0] }) {
-						okExit = false
-					}
-				case *ast.ReturnStmt:
-					if !set.FactsAt(x).Has(func(fa *Fact) bool { return fa.Kind == FTrue && fa.Call == trCalls[0] }) {
-						okExit = false
-					}
-				}
-				return true
-			})
-		}
+		// (decided above: no exit of Set is reachable without passing the success edge of an attempt)
+		okExit := true
 		c.Ob("state-writers", "nodeState.Set#exits-only-on-success", set.Decl.Pos(), okExit, "the retry loop is left only when the transition succeeded")
 	}
 
